@@ -96,7 +96,7 @@ STAGES = [dict(name='merge', mode='app', coq='Check.C04c', cases=cases, nontrivi
                     '{-1, 0, 1/2, 1} (scripted modifier) to 1-2 (quick) / 1-3 (thorough, sampled to 1800) inputs, one assignment per frame; condition-less and mixed variants; pairs of values of every dimension '
                     '(bool, 1D, 2D, 3D) merged into every output type with a dimension-changing action-level modifier. Random: 1-3 actions, 0-5 inputs of raw dimension bool/1D/2D (keys, mouse, gamepad), '
                     'chains of up to 3 modifiers (Negate, Scale, Swizzle, scripted dimension changers) at both levels, scripted conditions. non-trivial = some action fires; distinct = distinct scenario text')]
-CLAUSES = {1: 'the value entering the action-level modifiers is not the accumulation (sum / per-axis largest magnitude) of the inputs with the most significant non-None own state, in the action\'s dimension',
+CLAUSES = {6: 'a condition was shown a value other than the one after the modifiers of its level (input-level conditions see the input\'s modified value, action-level ones the value after the action-level modifiers)', 1: 'the value entering the action-level modifiers is not the accumulation (sum / per-axis largest magnitude) of the inputs with the most significant non-None own state, in the action\'s dimension',
            2: 'the polled value is not the output of the action-level modifier chain converted to the action\'s dimension', 3: 'the polled value does not have the declared output dimension',
            4: 'the polled state is not the law applied to the contributing inputs\' results and the action-level results', 5: 'an input that is past the held-input suppression did not pass its raw value through its modifiers', 8: 'panic (e.g. the unreachable! in ActionOutput::as_output)', 9: 'malformed trace', 10: 'panic'}
 def describe(stage, clause): return CLAUSES.get(clause, 'clause %d' % clause)
